@@ -62,8 +62,9 @@ Definition dispatch (x : sx) : sx :=
         match val_of_sx 1000 a with
         | Some va =>
             let fn := str_of_zs f in
-            SL [sx_of_res (m_monad fn (norm va)); sx_of_res (s_monad fn va); sx_bool (dom_monad fn va); sx_str (k_monad fn va);
-                sx_bool (canonical va)]
+            let d := dom_monad fn va in
+            SL [sx_of_res (m_monad fn (norm va)); sx_of_res (if d then s_monad fn va else Err); sx_bool d;
+                sx_str (if d then k_monad fn va else EmptyString); sx_bool (canonical va)]
         | None => sx_err "operand"
         end
       else sx_err "op"
@@ -72,8 +73,9 @@ Definition dispatch (x : sx) : sx :=
         match val_of_sx 1000 a, val_of_sx 1000 b with
         | Some va, Some vb =>
             let fn := str_of_zs f in
-            SL [sx_of_res (m_dyad fn (norm va) (norm vb)); sx_of_res (s_dyad fn va vb); sx_bool (dom_dyad fn va vb);
-                sx_str (k_dyad fn va vb); sx_bool (canonical va && canonical vb)]
+            let d := dom_dyad fn va vb in
+            SL [sx_of_res (m_dyad fn (norm va) (norm vb)); sx_of_res (if d then s_dyad fn va vb else Err); sx_bool d;
+                sx_str (if d then k_dyad fn va vb else EmptyString); sx_bool (canonical va && canonical vb)]
         | _, _ => sx_err "operand"
         end
       else sx_err "op"
